@@ -213,6 +213,16 @@ pub fn gen_project(seed: u64) -> Project {
     // order if anything but errors is counted against it.
     if rng.chance(1, 3) {
         g.project.toml.extra_build.push(format!("error_count_limit = {}", 1 + rng.below(3)));
+        // ... which only matters with several warnings spread over several files
+        for (path, variant) in [("src/mod_b.veryl", 3usize), ("src/diag.veryl", 1), ("src/attr_m.veryl", 1), ("examples/ex_top.veryl", 1), ("src/sub.veryl", 1)] {
+            for u in wgen::shapes::units() {
+                for sl in &u.slots {
+                    if sl.path == path && g.project.files.contains_key(path) && rng.chance(3, 4) {
+                        g.project.files.insert(path.to_string(), sl.variants[variant].to_string());
+                    }
+                }
+            }
+        }
     }
     g.project
 }
